@@ -73,6 +73,12 @@ def enum_cases(tier):
     for n in range(0, 13):
         seed += 1
         yield {"axis": "file-pointers", "n_file_pointers": n, "vseed": seed}
+    # bytes after the last declared record of each file belong to no record
+    for what in ("volume", "leader", "image"):
+        for kind in ("blank", "nul", "text", "random"):
+            for n in (0, 3, 9):
+                seed += 1
+                yield {"axis": f"trailing-{what}", "trailing": {what: kind}, "n_file_pointers": n, "vseed": seed}
     for n in range(0, 8):
         for rep in range(3):
             seed += 1
@@ -157,6 +163,8 @@ def run_case(case):
     }
     if "n_file_pointers" in case:
         full["n_file_pointers"] = case["n_file_pointers"]
+    if "trailing" in case:
+        full["trailing"] = case["trailing"]
     spec = common.spec_from(full)
     files, info = product.build_product(spec)
     with harness.Materialised(files, "memory") as prod:
